@@ -6,6 +6,7 @@ import (
 	"go/token"
 	"go/types"
 	"sort"
+	"strconv"
 	"strings"
 
 	"golang.org/x/tools/go/ssa"
@@ -857,6 +858,10 @@ func checkWeightToggle(c *Ctx, R string, fn *ssa.Function, name string, accs []*
 			if imp, _, _ := CondRelation(cl, cs.cond); imp {
 				k, _ := cs.val.IsConst()
 				got = append(got, k)
+			} else if holds, ok := condAtLen(cs.cond, "code", L); ok && holds {
+				// the start state picked by a remainder or quotient of the length
+				k, _ := cs.val.IsConst()
+				got = append(got, k)
 			}
 		}
 		if len(got) != 1 {
@@ -1087,6 +1092,54 @@ func digitNonNeg(c *Ctx, fn *ssa.Function, call *ssa.Call) (bool, string) {
 			return true, "guarded by membership in " + g.Name() + " whose keys are digits only"
 		}
 	}
+	// (iii) an earlier pass over the same string that returns unless every character converts to a
+	// non-negative value: this loop is only reached when that pass ran to its end
+	if ex, ok := r.(*ssa.Extract); ok && ex.Index == 2 {
+		if nx, ok := ex.Tuple.(*ssa.Next); ok && nx.IsString {
+			if rng, ok := nx.Iter.(*ssa.Range); ok {
+				found := false
+				eachInstr(fn, func(b *ssa.BasicBlock, ins ssa.Instruction) {
+					nx1, ok := ins.(*ssa.Next)
+					if !ok || found || nx1 == nx || !nx1.IsString {
+						return
+					}
+					rng1, ok := nx1.Iter.(*ssa.Range)
+					if !ok || rng1.X != rng.X || len(b.Succs) != 2 {
+						return
+					}
+					done := b.Succs[1]
+					if len(done.Preds) != 1 || !done.Dominates(call.Block()) {
+						return
+					}
+					for _, c1 := range callsTo(fn, call.Common().StaticCallee()) {
+						e1, ok := c1.Common().Args[0].(*ssa.Extract)
+						if !ok || e1.Tuple != ssa.Value(nx1) || e1.Index != 2 || !inLoopBody(b, c1.Block()) {
+							continue
+						}
+						n1 := NewNormer(c.P)
+						n1.Bind[c1] = "d"
+						all := true
+						any := false
+						for _, p := range b.Preds {
+							if !b.Dominates(p) {
+								continue
+							}
+							any = true
+							if imp, _, _ := CondRelation(n1.ReachCond(fn, c1.Block(), p), MustRefCond("d >= 0")); !imp {
+								all = false
+							}
+						}
+						if all && any {
+							found = true
+						}
+					}
+				})
+				if found {
+					return true, "an earlier pass over the same string returns unless every character has a non-negative value"
+				}
+			}
+		}
+	}
 	// (i) sign guard dominating every arithmetic use
 	n := NewNormer(c.P)
 	n.Bind[call] = "d"
@@ -1111,4 +1164,37 @@ func digitNonNeg(c *Ctx, fn *ssa.Function, call *ssa.Call) (bool, string) {
 		}
 	}
 	return true, "every use is behind a sign test"
+}
+
+// condAtLen evaluates a condition whose only unknowns are len(<name>) and remainders / quotients of it
+// by constants, at the given length. ok=false when the condition mentions anything else.
+func condAtLen(cd *Cond, name string, L int64) (holds, ok bool) {
+	cv := &condVars{bases: map[string]map[int64]bool{}, bools: map[string]bool{}}
+	collect(cd, cv)
+	if len(cv.bools) > 0 {
+		return false, false
+	}
+	ln := "len(" + name + ")"
+	bv := map[string]int64{}
+	for b := range cv.bases {
+		switch {
+		case b == ln:
+			bv[b] = L
+		case strings.HasPrefix(b, "Mod("+ln+",") && strings.HasSuffix(b, ")"):
+			k, err := strconv.ParseInt(b[len("Mod("+ln+","):len(b)-1], 10, 64)
+			if err != nil || k <= 0 {
+				return false, false
+			}
+			bv[b] = L % k
+		case strings.HasPrefix(b, "Div("+ln+",") && strings.HasSuffix(b, ")"):
+			k, err := strconv.ParseInt(b[len("Div("+ln+","):len(b)-1], 10, 64)
+			if err != nil || k <= 0 {
+				return false, false
+			}
+			bv[b] = L / k
+		default:
+			return false, false
+		}
+	}
+	return evalCond(cd, bv, nil), true
 }
